@@ -485,6 +485,11 @@ def check_loopback(case: Dict[str, Any]) -> Outcome:
         expected = None
     elif is_sse:
         expected = jsonrpc_messages(text, classify) or None
+        flushed = jsonrpc_messages(text, classify, flush_tail=True)
+        if flushed and len(got) == len(flushed) and all(strict_eq(a, b) for a, b in zip(got, flushed)):
+            return out  # an event not terminated by a blank line may or may not be delivered
+        if expected is None and flushed and msg["kind"] == "request" and len(got) == 1 and classify(got[0])[0] == "error":
+            return out
     else:
         try:
             v = json.loads(text)
